@@ -53,7 +53,24 @@ func (r *Result) viol(class, sig, detail string, id int) {
 }
 
 func world(cfg sim.Cfg) *simrt.World {
-	return simrt.NewWorld(simrt.Config{PoolPolicy: cfg.Pool, EvictPermille: cfg.Evict, MapPolicy: cfg.MapOrder, Sched: simrt.SchedNone})
+	w := simrt.NewWorld(simrt.Config{PoolPolicy: cfg.Pool, EvictPermille: cfg.Evict, MapPolicy: cfg.MapOrder, Sched: simrt.SchedNone, IntrudePermille: cfg.Intrude})
+	w.Intruder = intruder
+	return w
+}
+
+// intruder is what "another goroutine" does with the pools in the window between a
+// Put and the caller's next instruction: one use of each pooled kind of state
+// (decoder with a key list, encoder, scanner), on inputs unlike the scenario's.
+func intruder() {
+	saved := *flakyCtl
+	*flakyCtl = FlakyCtl{}
+	var m map[string]any
+	fj.UnmarshalWithKeys([]byte(`{"zz-intruder":[1,"x"],"yy":{"q":null}}`), &m)
+	fj.Marshal(m)
+	fj.Valid([]byte(`["intruder",{"k":[0]}]`))
+	var a any
+	fj.Unmarshal([]byte(`[tru`), &a) // leaves a saved error / error context behind
+	*flakyCtl = saved
 }
 
 func hasInject(script []ReadStep) bool {
@@ -92,7 +109,7 @@ func runDec(s *Scen, res *Result) {
 	fork := runDecFork(s, s.Script, w)
 	std := runDecStd(s, s.Script)
 	var whole *decRun
-	injected := fork.Fired["read_error_injected"] > 0
+	injected := fork.Fired["read_error_injected"] > 0 || fork.Fired["read_error_with_data"] > 0
 	if !injected && len(s.Script) > 0 {
 		whole = runDecFork(s, nil, w)
 	}
@@ -226,13 +243,14 @@ type fnOut struct {
 	ValNaf  string
 	Err     string
 	Keys    []string
+	KeysCmp string // the key list when it is in the property's domain (object decoded into a map-typed target), else ""
 	Bool    bool
 	val     any
 	ret     []byte // the slice the codec returned (kept by the simulated caller)
 }
 
 func (o *fnOut) key() string {
-	return fmt.Sprintf("%v|%s|%s|%s|%v", o.Skipped, o.Out, o.Val, o.Err, o.Bool)
+	return fmt.Sprintf("%v|%s|%s|%s|%v|%s", o.Skipped, o.Out, o.Val, o.Err, o.Bool, o.KeysCmp)
 }
 
 func isMapTarget(t int) bool {
@@ -262,6 +280,11 @@ func callFork(c *FnCall) (o fnOut) {
 				o.Keys, err = fj.UnmarshalValidWithKeys(c.Text, t)
 			}
 			o.Keys = append([]string(nil), o.Keys...)
+			if (c.Fn == FUnmarshalWithKeys || c.Fn == FUnmarshalValidWithKeys) && err == nil && isMapTarget(c.Target) {
+				if root, perr := jr.Parse(c.Text); perr == nil && root.K == jr.Obj {
+					o.KeysCmp = fmt.Sprintf("%q", o.Keys)
+				}
+			}
 			o.val = reflect.ValueOf(t).Elem().Interface()
 			o.Val, o.ValNaf, o.Err = Render(t, false), Render(t, true), errRender(err)
 		case FMarshal, FMarshalEscaped, FMarshalIndent:
@@ -874,6 +897,9 @@ func RunWorker(p sim.Params) *sim.Summary {
 			sum.Faults["pool_eviction"] += r.Stats.PoolEvicted
 		}
 		sum.Probes["pool_reuse_after_failed_call"] += r.Stats.PoolReuseAfterFail
+		if r.Stats.Intrusions > 0 {
+			sum.Faults["pool_intrusion_between_put_and_return"] += r.Stats.Intrusions
+		}
 		sum.Probes["map_order_nontrivial"] += r.Stats.KeysNontrivial
 		sum.Probes["values_decoded_or_encoded"] += r.Values
 		for k, v := range r.Probes {
